@@ -170,7 +170,7 @@ func (b *Browser) Navigate(label, scheme, host, path string, maxHops int) *NavRe
 				res.Stuck = "redirect to an unknown provider"
 				return res
 			}
-			ar := f.IdP.Authorize(rec.Location, b.ID)
+			ar := f.Authorize(rec.Location, b.ID)
 			res.AuthReqs = append(res.AuthReqs, ar)
 			res.AuthCount++
 			if ar.Code == "" {
